@@ -30,6 +30,14 @@ from harness.fw import REPO, VERIF, Check, Driver, ToolFailure
 STEP_TIMEOUT = 60.0
 
 
+def tool_failure(msg):
+    """`./check` runs harness.fw as __main__, so the ToolFailure its main() catches is __main__.ToolFailure,
+    a different class object from harness.fw.ToolFailure; raise the one that is caught (exit 2)."""
+    import sys
+    cls = getattr(sys.modules.get("__main__"), "ToolFailure", None)
+    return (cls if isinstance(cls, type) and issubclass(cls, Exception) else ToolFailure)(msg)
+
+
 def interleavings(n):
     """all orderings of the multiset {0,0,1,1,…,n-1,n-1}: (2n)!/2^n"""
     out = []
@@ -312,7 +320,7 @@ def overlaps(base):
 def run(ck: Check):
     ck.prove(exes=["drv_C36"])
     if not hook_present():
-        raise ToolFailure(f"hook H1 (fixes/hook-H1-session.diff) is not applied to {REPO}/androguard/session.py: "
+        raise tool_failure(f"hook H1 (fixes/hook-H1-session.diff) is not applied to {REPO}/androguard/session.py: "
                           "interleavings of real processes cannot be forced, no verdict")
     warm_up()
     ck.rule = ("all 6 interleavings of 2 sessions (b=0,1,3, and through misc.get_default_session) and all 90 of 3 sessions "
@@ -331,10 +339,10 @@ def run(ck: Check):
         results = pool.map(_worker, cases, chunksize=4)
     ck.notes.append(f"replaying {len(cases)} schedules in real processes took {time.time() - t_replay:.1f}s")
     drv = Driver("drv_C36")
-    reqs, reals, nontrivial, dist, samples = [], [], set(), {}, []
+    reqs, reals, nontrivial, dist, samples, seen_nret = [], [], set(), {}, [], set()
     for c, r in zip(cases, results):
         if r.get("tool_failure"):
-            raise ToolFailure(f"C36 schedule {c}: {r['tool_failure']}")
+            raise tool_failure(f"C36 schedule {c}: {r['tool_failure']}")
         oracle(ck, c, r)
         reqs.append(f"session retry {c['N']} {c['b']} " + (",".join(map(str, r["eff"])) or "-"))
         reals.append(r["canon"])
@@ -346,7 +354,8 @@ def run(ck: Check):
         dist[k] = dist.get(k, 0) + 1
         nret = sum(1 for t in r["trace"] if t == "retry")
         dist[f"retries={nret}"] = dist.get(f"retries={nret}", 0) + 1
-        if ov and len(samples) < 4 and nret == len(samples) % 3:
+        if len(samples) < 5 and nret not in seen_nret:
+            seen_nret.add(nret)
             samples.append({"case": c, "real": r["canon"]})
     model = drv.ask(reqs)
     ck.compare("session", reqs, reals, model)
